@@ -295,6 +295,7 @@ func (r *Router) deployTargetsIntoService(service *Service, targetSlot TargetSlo
 	}
 
 	if replaced != nil {
+		replaced.ReplaceWith(lb)
 		simYield("deploy.beforeDrain", replaced)
 		replaced.DrainAll(drainTimeout)
 		simYield("deploy.beforeDispose", replaced)
